@@ -70,6 +70,35 @@ def register(reg):
             ("trajectory_valid", "self._trajectory == 'maximum' or self._trajectory == 'revolve'"),
         ]))
     reg.add(Contract(
+        "multistage.MultistageCheckpointSchedule.__init__", self_class="MultistageCheckpointSchedule",
+        params=[("self", "obj"), ("max_n", "int"), ("snapshots_in_ram", "int"), ("snapshots_on_disk", "int"),
+                ("trajectory", "str")],
+        defaults={"trajectory": "'maximum'"},
+        requires=[("counts_nonnegative", "snapshots_in_ram >= 0 and snapshots_on_disk >= 0"),
+                  ("a_unit_when_more_than_one_step", "implies(max_n >= 2, snapshots_in_ram + snapshots_on_disk >= 1)"),
+                  ("trajectory_valid", VALID_TRAJ)],
+        raises=[("ValueError", "max_n < 1")],
+        ensures=[("n_zero", "self._n == 0"), ("r_zero", "self._r == 0"),
+                 ("offline", "self._max_n is not None and self._max_n == max_n and max_n >= 1"),
+                 ("not_exhausted", "not self._exhausted"),
+                 ("counts_nonnegative", "self._snapshots_in_ram >= 0 and self._snapshots_on_disk >= 0"),
+                 ("counts_consistent", "len(self._storage) == self._snapshots_in_ram + self._snapshots_on_disk"),
+                 ("unit_total_depends_on_sum_only",
+                  "len(self._storage) == min(min(snapshots_in_ram, max_n - 1) + min(snapshots_on_disk, max_n - 1), "
+                  "max(max_n - 1, 0))", ("C14", "C17")),
+                 ("units_at_most_steps_minus_one", "len(self._storage) <= max(self._max_n - 1, 0)"),
+                 ("a_unit_when_more_than_one_step", "implies(self._max_n >= 2, len(self._storage) >= 1)"),
+                 ("labels", "forall(0, len(self._storage), lambda i: self._storage[i] == StorageType.RAM or "
+                            "self._storage[i] == StorageType.DISK)"),
+                 ("ram_count", "CNT(self._storage, len(self._storage), StorageType.RAM) == self._snapshots_in_ram"),
+                 ("disk_count", "CNT(self._storage, len(self._storage), StorageType.DISK) == self._snapshots_on_disk"),
+                 ("ram_within_declared", "self._snapshots_in_ram <= snapshots_in_ram", ("C03", "C14")),
+                 ("disk_within_declared", "self._snapshots_on_disk <= snapshots_on_disk", ("C03",)),
+                 ("trajectory", "self._trajectory == trajectory")],
+        frame=["_n", "_r", "_max_n", "_snapshots_in_ram", "_snapshots_on_disk", "_storage", "_exhausted",
+               "_trajectory"],
+        props=("C17", "C08", "C03", "C14"), exc_props={"ValueError": ("C17",)}))
+    reg.add(Contract(
         "multistage.MultistageCheckpointSchedule.is_exhausted", self_class="MultistageCheckpointSchedule",
         params=[("self", "obj")], is_property=True, pure=True, returns="bool",
         ensures=[("flag", "result == self._exhausted")], frame=[], props=("C09", "C15")))
@@ -90,7 +119,7 @@ def register(reg):
         params=[("self", "obj")],
         requires=[("fresh_n", "self._n == 0"), ("fresh_r", "self._r == 0"),
                   ("not_exhausted", "not self._exhausted")],
-        frame=["_n", "_r", "_exhausted"], props=STREAM, exc_props={"*": ("C17", "C01")},
+        frame=["_n", "_r", "_exhausted"], props=STREAM, exc_props={"*": ("C17", "C01", "C02")},
         locals={"snapshots": ("list", ["int"])},
         hooks={"module": "ghost", "init": "ms_init", "emit_Forward": "ms_forward",
                "emit_EndForward": "ms_end_forward", "emit_Reverse": "ms_reverse", "emit_Copy": "ms_copy",
